@@ -16,6 +16,9 @@ pub enum Op {
     CloseOut,
     Exit(i32),
     Kill(i32),
+    /// If the command line has `--config-path`: write half of the formatted
+    /// input and exit 1; otherwise carry on with the script.
+    FailIfConfig,
 }
 
 pub fn parse(s: &str) -> Vec<Op> {
@@ -32,6 +35,7 @@ pub fn parse(s: &str) -> Vec<Op> {
                 "closeout" => Op::CloseOut,
                 "exit" => Op::Exit(p.get(1)?.parse().ok()?),
                 "kill" => Op::Kill(p.get(1)?.parse().ok()?),
+                "failifconfig" => Op::FailIfConfig,
                 _ => return None,
             })
         })
@@ -74,6 +78,12 @@ pub fn payload(kind: &str, part: &str, input: &[u8]) -> Vec<u8> {
 /// and nobody closes its stdout early (the model used by the oracle).
 #[allow(dead_code)]
 pub fn model_output(ops: &[Op], input: &[u8]) -> (Vec<u8>, Option<i32>) {
+    model_output_with(ops, input, false)
+}
+
+/// `has_config`: whether bindgen passes `--config-path` to the formatter.
+#[allow(dead_code)]
+pub fn model_output_with(ops: &[Op], input: &[u8], has_config: bool) -> (Vec<u8>, Option<i32>) {
     let mut consumed = 0usize;
     let mut out = Vec::new();
     let mut in_open = true;
@@ -99,6 +109,14 @@ pub fn model_output(ops: &[Op], input: &[u8]) -> (Vec<u8>, Option<i32>) {
             Op::CloseOut => out_open = false,
             Op::Exit(c) => return (out, Some(*c)),
             Op::Kill(_) => return (out, None),
+            Op::FailIfConfig => {
+                if has_config {
+                    if out_open {
+                        out.extend(payload("formatted", "half", &input[..consumed]));
+                    }
+                    return (out, Some(1));
+                }
+            }
         }
     }
     (out, Some(0))
